@@ -31,10 +31,16 @@ def run(ctx):
         runs = [("hist4", dict(MaxNodes=4, GAlpha={-2}, Ops={"add", "mul"}, MaxHist=4, MaxBackward=99,
                                Acts={"op", "bw", "zero", "retain", "zeroset"}, InitLeaves=LEAVES2), 80000),
                 ("hist5-narrow", dict(MaxNodes=3, GAlpha={-2}, Ops={"mul"}, MaxHist=5, MaxBackward=99,
-                                      Acts={"op", "bw", "zero", "retain"}, InitLeaves=LEAVES2), 60000)]
-        sims = [("sim", dict(MaxNodes=6, GAlpha={1, -2, 3}, Ops={"add", "mul", "sub", "neg", "sq", "sum", "idx", "stack"}, UseVec=True,
+                                      Acts={"op", "bw", "zero", "retain"}, InitLeaves=LEAVES2), 60000),
+                # backward calls inside / outside no_grad and retain_grads blocks (interior gradients kept by the context)
+                ("hist5-ctx", dict(MaxNodes=3, GAlpha={-2}, Ops={"mul"}, MaxHist=5, MaxBackward=99, MaxCtx=1,
+                                   Acts={"op", "bw", "ctx"}, InitLeaves=LEAVES2), 60000),
+                # shape-changing and multi-output operators over a vector leaf that already holds a gradient
+                ("hist4-vec", dict(MaxNodes=4, GAlpha={-2, 3}, Ops={"mul", "sum", "idx", "unbind", "stack"}, UseVec=True, MaxHist=4, MaxBackward=99,
+                                   Acts={"op", "bw", "zero"}, InitLeaves=[dict(vec=True, rg=True)]), 60000)]
+        sims = [("sim", dict(MaxNodes=6, GAlpha={1, -2, 3}, Ops={"add", "mul", "sub", "neg", "sq", "sum", "idx", "stack", "unbind"}, UseVec=True,
                              MaxHist=12, MaxBackward=99, Acts={"op", "bw", "zero", "retain", "zeroset"},
-                             InitLeaves=[dict(vec=False, rg=True), dict(vec=True, rg=True), dict(vec=False, rg=False)]), 100)]
+                             InitLeaves=[dict(vec=False, rg=True), dict(vec=True, rg=True), dict(vec=False, rg=False)]), 30)]
     else:
         AG.model_check(rep, "AG_hist_mc", dict(MaxNodes=4, GAlpha={1, -2}, Ops={"add", "mul"}, MaxBackward=3,
                                                Acts={"op", "bw", "zero", "retain", "zeroset"}, InitLeaves=LEAVES2), timeout=7200)
@@ -44,7 +50,9 @@ def run(ctx):
                                       Acts={"op", "bw", "zero", "retain"}, InitLeaves=LEAVES2), 600000),
                 ("hist4-vec", dict(MaxNodes=4, GAlpha={-2}, Ops={"add", "mul", "sum", "idx"}, UseVec=True, MaxHist=4, MaxBackward=99,
                                    Acts={"op", "bw", "zero", "retain"},
-                                   InitLeaves=[dict(vec=True, rg=True), dict(vec=False, rg=True)]), 600000)]
+                                   InitLeaves=[dict(vec=True, rg=True), dict(vec=False, rg=True)]), 600000),
+                ("hist6-ctx", dict(MaxNodes=3, GAlpha={-2}, Ops={"mul"}, MaxHist=6, MaxBackward=99, MaxCtx=2,
+                                   Acts={"op", "bw", "ctx", "retain"}, InitLeaves=LEAVES2), 600000)]
         sims = [("sim", dict(MaxNodes=7, GAlpha={1, -2, 3}, Ops={"add", "mul", "sub", "neg", "sq", "sum", "idx", "stack", "unbind", "clone"}, UseVec=True,
                              MaxHist=16, MaxBackward=99, Acts={"op", "bw", "zero", "retain", "zeroset"},
                              InitLeaves=[dict(vec=False, rg=True), dict(vec=True, rg=True), dict(vec=False, rg=False)]), 20000)]
